@@ -136,6 +136,15 @@ CLAIMED['C20'] = dict(
          'are also outputs, in input order. The COMPLETE finite grid (15 552 configurations) runs against a recording fake backend module.',
     note='Coq kernel; no axioms; strings are tokens; the import system is observed through the import log of a fake module; set_backend rebinding is checked on the implementation.',
     technique='Coq proof (finite case analysis under universally quantified strings) + exhaustive configuration grid correspondence', design='5/C20')
+CLAIMED['C11'] = dict(
+    text='Theorems over a sequential model of BasePort/BaseInput/BaseOutput/EchoPort/MultiPort for EVERY device script (messages, nothing, pushes into the queue, the device '
+         'closing itself inside _receive) and EVERY sequence of send/receive/poll/iter_pending/iteration/close/with/__del__: the device is released exactly once iff closed; '
+         'autoreset messages go out once, contiguous, just before the release; send on a closed port raises ValueError unchanged; a closed port drains in order then stops; '
+         'iteration never ends with an exception because of a close; blocking receive returns after exactly k sleeps when the device delivers at call k+1, non-blocking calls '
+         'never sleep; MultiPort returns without sleeping when anything is deliverable. Correspondence drives real port classes over scripted device doubles with a fake sleep.',
+    note='Coq kernel; no axioms; threads are not in this model (C10 covers locking); "never returns" is fuel exhaustion in the model and a bounded hang guard on the fake sleep in the harness; '
+         'PortServer/SocketPort are covered under C18.',
+    technique='Coq proof (invariant by induction over operation histories and device scripts) + model/implementation correspondence', design='5/C11')
 NOT_YET = {}
 ALL = ['C%02d' % i for i in range(1, 21)]
 
